@@ -138,7 +138,7 @@ def ret_class(r):
         return "True"
     if r is False:
         return "False"
-    if isinstance(r, (bytes, bytearray)):
+    if isinstance(r, (bytes, bytearray, memoryview)):
         return "bytes"
     if r is None:
         return "None"
@@ -146,7 +146,7 @@ def ret_class(r):
 
 
 def show(r):
-    if isinstance(r, (bytes, bytearray)):
+    if isinstance(r, (bytes, bytearray, memoryview)):
         return "bytes:" + bytes(r).hex()
     if isinstance(r, (list, tuple)):
         return [show(x) for x in r]
@@ -284,7 +284,7 @@ def execute(pack, fc, hist, seed, pid=PID, ch=None, fixed=None, enc="direct"):
                 oks = [e for e in tru if e[0] == "tx_ok" and e[1] == p]
                 ackpl = bytes(oks[-1][2] or b"") if oks else b""
                 exps.append(False if not oks else (ackpl if (mode == "ackpl" and not so and ackpl) else True))
-            norm = [bytes(x) if isinstance(x, (bytes, bytearray)) else x for x in rets]
+            norm = [bytes(x) if isinstance(x, (bytes, bytearray, memoryview)) else x for x in rets]
             # (two booleans swapped cannot be told from two inverted results: left to the element check)
             if norm != exps and sorted(map(repr, norm)) == sorted(map(repr, exps)) and not all(isinstance(x, bool) for x in norm):
                 viol = V("list-order", "list", "send(list) returned %s, the payloads' fates in order are %s" % (show(ret), show(exps)))
